@@ -268,7 +268,7 @@ fn spellings(m: u128, s: u32) -> Vec<(String, u128, u32)> {
     v
 }
 
-fn invalid_literals() -> Vec<String> {
+pub fn invalid_literals() -> Vec<String> {
     let mut v = Vec::new();
     for base in ["1", "12", "1.5", "0.25", "100", "1.", "0"] {
         for suf in ["e5", "E5", "e", "E", "e-3", "e+3", "E-3", "e0", ".", "..", ".5.", "e5.0"] {
@@ -281,6 +281,15 @@ fn invalid_literals() -> Vec<String> {
         }
     }
     v.extend(["1.2.3", "1..2", "1.2.3.4", "0..", "9.9.9", "1e1e1", "3.e2"].iter().map(|s| s.to_string()));
+    // exponent notation is not part of the language, whatever the exponent (type boundaries included)
+    for e in ["0", "1", "28", "29", "127", "128", "255", "256", "32767", "32768", "65535", "65536", "2147483647", "2147483648", "4294967294", "4294967295", "4294967296", "9223372036854775807", "9223372036854775808", "18446744073709551615", "18446744073709551616"] {
+        for base in ["1", "1.5", "0.25", "0"] {
+            for sign in ["", "-", "+"] {
+                v.push(format!("{}e{}{}", base, sign, e));
+                v.push(format!("{}E{}{}", base, sign, e));
+            }
+        }
+    }
     // the same malformations after a mantissa that is already full (28 and 29 digits)
     for base in ["0.1234567890123456789012345678", "1.000000000000000000000000000", "7922816251426433759354395033", "0.12345678901234567890123456789", "1.00000000000000000000000000001"] {
         for suf in ["..", ".2.3", "e5", "E-3", "e", ".5.", "e+2"] {
